@@ -1,13 +1,13 @@
 SPECIFICATION MCSpec
 CONSTANTS
-  Groups = {"g1","g2"}
-  Names = {"s1","s2"}
+  Groups = {"g1"}
+  Names = {"s1"}
   Dev = {}
   Cap = 0
   MaxLimit = 10000
   DefLimit = 1000
-  Acts = {"groups","relays","snaps"}
-  Nids = {"n1","n2"}
+  Acts = {"groups","proc","welcomes","glob","snaps"}
+  Nids = {}
   Epochs = {1}
   Ptrs = {}
   Relays = {"r1"}
@@ -19,11 +19,11 @@ CONSTANTS
   MsgEpochs = {}
   MsgStates = {"processed"}
   Tags = {""}
-  Wrappers = {1}
-  ProcStates = {"failed"}
-  ProcEpochs = {}
+  Wrappers = {1,2}
+  ProcStates = {"failed","processed"}
+  ProcEpochs = {1}
   WelcomeIds = {1}
-  WelcomeStates = {"pending"}
+  WelcomeStates = {"pending","accepted"}
   GdTypes = {"tree"}
   GdVals = {"t1"}
   LeafVals = {"a"}
@@ -33,11 +33,12 @@ CONSTANTS
   GlobKeys = {"k1"}
   Ats = {1}
   Mins = {2}
-  Lims = {1}
-  Offs = {0}
+  Lims = {1,2}
+  Offs = {0,1}
   Subs = {"abc"}
 VIEW MCView
 INVARIANT TypeInv
 INVARIANT InvC10Plain
+INVARIANT InvC18
 PROPERTY PropC09Plain
 CHECK_DEADLOCK FALSE
